@@ -28,6 +28,9 @@ class DefaultSettings(MagicProperties):
 
     def reset(self):
         """Resets all nested properties to their hard coded default values"""
+        # start from fresh property objects, so that leaves that are not listed in the
+        # defaults dictionary (class-level defaults) are restored as well
+        self.display = None
         self.update(get_defaults_dict(), _match_properties=False)
         return self
 
